@@ -193,6 +193,8 @@ func c17Run(r *Run) {
 						}
 						if c17ConvertedTo(res, target) {
 							r.ok(key, rs.Pos(), "value converted to the target type before it is handed to reflect.Call")
+						} else if c17ExactTypeGuard(rp, cc, rs, res, target) {
+							r.ok(key, rs.Pos(), "the unconverted value is returned only where the target type has been compared equal to the value's own static type")
 						} else {
 							r.bad(key, rs.Pos(), fmt.Sprintf("returns %s for kinds [%s] without converting it to %s: reflect.Value.Call panics for any parameter whose type is not exactly the static Go type (e.g. int64, or a named string type)", exprStr(res), strings.Join(kinds, ","), target))
 						}
@@ -1435,3 +1437,109 @@ func c17NilBeforeElem(r *Run, rp *packages.Package) {
 }
 
 func c17IsReflectValue(t types.Type) bool { return t != nil && isNamed(t, "reflect", "Value") }
+
+
+// c17ExactTypeGuard: `return reflect.ValueOf(v)` without Convert is a value of the target type exactly when the
+// target reflect.Type equals reflect.TypeOf of v's static type. Accepted: the return sits in the then-branch of
+// an `if` whose condition is `target == G` (or a bool variable defined as that comparison in the same case
+// clause), G a package-level variable initialised with reflect.TypeOf(e), and e has the static type of v.
+// A comparison of kinds (target.Kind() == reflect.Int) does not qualify: a named int has that kind too.
+func c17ExactTypeGuard(p *packages.Package, scope ast.Node, rs *ast.ReturnStmt, res ast.Expr, target string) bool {
+	info := p.TypesInfo
+	c, ok := ast.Unparen(res).(*ast.CallExpr)
+	if !ok || len(c.Args) != 1 {
+		return false
+	}
+	se, ok := ast.Unparen(c.Fun).(*ast.SelectorExpr)
+	if !ok || se.Sel.Name != "ValueOf" {
+		return false
+	}
+	vt := info.TypeOf(c.Args[0])
+	if vt == nil {
+		return false
+	}
+	// G := reflect.TypeOf(e) at package level → type of e
+	typeOfVar := func(e ast.Expr) types.Type {
+		id, ok := ast.Unparen(e).(*ast.Ident)
+		if !ok {
+			return nil
+		}
+		v, ok := info.Uses[id].(*types.Var)
+		if !ok || v.Parent() != p.Types.Scope() {
+			return nil
+		}
+		var out types.Type
+		for _, f := range p.Syntax {
+			for _, d := range f.Decls {
+				gd, ok := d.(*ast.GenDecl)
+				if !ok {
+					continue
+				}
+				for _, sp := range gd.Specs {
+					vs, ok := sp.(*ast.ValueSpec)
+					if !ok {
+						continue
+					}
+					for i, nm := range vs.Names {
+						if info.Defs[nm] == v && i < len(vs.Values) {
+							if tc, ok := ast.Unparen(vs.Values[i]).(*ast.CallExpr); ok && len(tc.Args) == 1 {
+								if tse, ok := ast.Unparen(tc.Fun).(*ast.SelectorExpr); ok && tse.Sel.Name == "TypeOf" {
+									out = info.TypeOf(tc.Args[0])
+								}
+							}
+						}
+					}
+				}
+			}
+		}
+		return out
+	}
+	isExactCmp := func(e ast.Expr) bool {
+		be, ok := ast.Unparen(e).(*ast.BinaryExpr)
+		if !ok || be.Op != token.EQL {
+			return false
+		}
+		for _, pair := range [][2]ast.Expr{{be.X, be.Y}, {be.Y, be.X}} {
+			if exprStr(ast.Unparen(pair[0])) == target {
+				if gt := typeOfVar(pair[1]); gt != nil && types.Identical(gt, vt) {
+					return true
+				}
+			}
+		}
+		return false
+	}
+	// bool variables of the scope defined as such a comparison (and never reassigned)
+	exactVars := map[types.Object]bool{}
+	assigned := map[types.Object]int{}
+	ast.Inspect(scope, func(n ast.Node) bool {
+		if as, ok := n.(*ast.AssignStmt); ok && len(as.Lhs) == len(as.Rhs) {
+			for i, l := range as.Lhs {
+				if id, ok := l.(*ast.Ident); ok {
+					o := info.ObjectOf(id)
+					assigned[o]++
+					if isExactCmp(as.Rhs[i]) {
+						exactVars[o] = true
+					}
+				}
+			}
+		}
+		return true
+	})
+	guarded := false
+	ast.Inspect(scope, func(n ast.Node) bool {
+		is, ok := n.(*ast.IfStmt)
+		if !ok || rs.Pos() < is.Body.Pos() || rs.End() > is.Body.End() {
+			return true
+		}
+		if isExactCmp(is.Cond) {
+			guarded = true
+		}
+		if id, ok := ast.Unparen(is.Cond).(*ast.Ident); ok {
+			if o := info.Uses[id]; exactVars[o] && assigned[o] == 1 {
+				guarded = true
+			}
+		}
+		return true
+	})
+	return guarded
+}
